@@ -289,7 +289,13 @@ impl Prop for Equiv {
     fn run(&self, any: &EquivAny, rec: &mut Rec) -> CheckResult {
         let case = match any {
             EquivAny::Small(c) => c,
-            EquivAny::Composite(cc) => return run_composite(cc, rec),
+            EquivAny::Composite(cc) => {
+                // the equivalence classes are derived per component: the gate argument (which joins the
+                // components) belongs to the oracle of C01-C04/C07 only
+                let mut cc = cc.clone();
+                cc.gate.clear();
+                return run_composite(&cc, rec);
+            }
             EquivAny::HugeFan(h) => return crate::checks::hugefan::run_equiv(h, rec),
         };
         rec.class(&format!("pres-{}", case.pres.kind()));
